@@ -284,6 +284,40 @@ func qualifiedName(x ast.Expr) string {
 	}
 }
 
+// isBuiltinFunc reports whether fn refers to the predeclared function
+// with the given name and not to a user-defined object that shadows it.
+func isBuiltinFunc(ctx *linter.CheckerContext, fn ast.Expr, name string) bool {
+	id, ok := fn.(*ast.Ident)
+	if !ok || id.Name != name {
+		return false
+	}
+	_, ok = ctx.TypesInfo.ObjectOf(id).(*types.Builtin)
+	return ok
+}
+
+// stdlibFuncName returns the "import/path.Func" name of a function that is
+// referenced through a package qualifier (pkg.Func) that resolves to an
+// imported Go standard library package.
+//
+// Unlike qualifiedName, it is not fooled by local variables, user packages
+// or import aliases that merely share the spelling of a standard package.
+// For all other expressions returns empty string.
+func stdlibFuncName(ctx *linter.CheckerContext, fn ast.Expr) string {
+	sel, ok := fn.(*ast.SelectorExpr)
+	if !ok {
+		return ""
+	}
+	x, ok := sel.X.(*ast.Ident)
+	if !ok {
+		return ""
+	}
+	pkgName, ok := ctx.TypesInfo.ObjectOf(x).(*types.PkgName)
+	if !ok || !isStdlibPkg(pkgName.Imported()) {
+		return ""
+	}
+	return pkgName.Imported().Path() + "." + sel.Sel.Name
+}
+
 // identOf returns identifier for x that can be used to obtain associated types.Object.
 // Returns nil for expressions that yield temporary results, like `f().field`.
 func identOf(x ast.Node) *ast.Ident {
